@@ -1794,6 +1794,17 @@ def gen_c13(seed, tier):
                 sc.ctr_cleanup(kind, i % 8)
                 sc.par_cleanup(kind, i % 8)
             sc.raw("set paint=-1")
+            # selection under memory pressure: each allocation request of an init refused in turn; an
+            # init that reports success carries the widest back end all the same, and the inits after it too
+            for nth in (1, 2, 3):
+                sc.ctr_init(kind, 0, cap=cap, fail=nth, garbage=hex(sc.rng.getrandbits(64)))
+                sc.ctr_cleanup(kind, 0)
+                sc.par_init(kind, 0, cap=cap, fail=nth)
+                sc.par_cleanup(kind, 0)
+                sc.ctr_init(kind, 1, cap=cap)
+                sc.par_init(kind, 1, cap=cap)
+                sc.ctr_cleanup(kind, 1)
+                sc.par_cleanup(kind, 1)
         # without any cap argument (cap stays at its default) and interleaved kinds
     sc.reset("c13-mixed")
     for i in range(n):
@@ -2381,6 +2392,21 @@ def gen_c19(seed, tier):
             sc.ctr_encrypt("s128", 0, sc.rb(5 * 16 + 3))      # the low part wraps, the prefix must not move
             sc.ctr_encrypt("s128", 0, sc.rb(13))
         sc.ctr_cleanup("s128", 0)
+    # Arduino-only: CTR<T>::clear() in the middle of a block, then a new key and data WITHOUT a new IV:
+    # the stream restarts at byte 0 of E(0) (what init + set_key + encrypt gives in the C library)
+    for z, tw in ((1, 0), (2, 0), (3, 0), (1, 1), (2, 1)):
+        sc.reset("c19-ctrclear-%d-%d" % (z, tw))
+        sc.ctr_init("s128", 0)
+        setk = sc.ctr_set_tweaked_key if tw else sc.ctr_set_key
+        for first in (21, 1, 32, 47, 0, 16 * 3 + 15):
+            setk("s128", 0, sc.rb(z * 16))
+            sc.ctr_set_counter("s128", 0, sc.rb(16))
+            sc.ctr_encrypt("s128", 0, sc.rb(first))
+            sc.op("ard_clear", k="s128", o=0, fam="ctr")
+            setk("s128", 0, sc.rb(z * 16))
+            sc.ctr_encrypt("s128", 0, sc.rb(16 + 5))
+            sc.ctr_encrypt("s128", 0, sc.rb(30))
+        sc.ctr_cleanup("s128", 0)
     return sc
 
 
@@ -2400,13 +2426,15 @@ def check_C19(work, tier, seed):
     bc = build(work)
     # (executions that use an Arduino-only feature have no C counterpart and are left out)
     chead, cex = sc_executions(sc)
-    cex = [e for e in cex if not any(l.startswith("ard_set_counter_size") for l in e)]
+    cex = [e for e in cex if not any(l.startswith("ard_set_counter_size") or (l.startswith("ard_clear") and "fam=ctr" in l)
+                                     for l in e)]
     ctext = "\n".join(ln.replace(" viadec=0", "").replace(" viadec=1", "")
                       for ln in chead + [l for e in cex for l in e] if not ln.startswith("ard_clear")) + "\n"
     clines = run_drv(bc, ctext)
     out.events += len(clines)
     ah, aex = split_executions(lines)
-    alines = ah + [ln for ex in aex if not any('"e":"ard_set_counter_size"' in x for x in ex)
+    alines = ah + [ln for ex in aex if not any('"e":"ard_set_counter_size"' in x or ('"e":"ard_clear"' in x and '"fam":"ctr"' in x)
+                                               for x in ex)
                    for ln in ex if '"e":"ard_clear"' not in ln]
     ign = ("be", "psize", "cap", "na", "nf", "nz", "badfree", "lv", "stray", "ctxnull", "vtnull", "fail")
     h, diff = compare_axis(work, clines, alines, "arduino-vs-c", "C19", seed, out, ignore_keys=ign)
@@ -2436,12 +2464,33 @@ CHECKS.update({"C19": check_C19})
 
 # ------------------------------------------------------------------ C20 example tools
 
-def run_tool(root, tooldir, tool, args, infile_bytes, rng, idx):
+def hex_text(rng, data, fancy):
+    """an option text that denotes <data> in the tools' hex syntax; fancy: mixed case, separators
+    (blank, colon, dot; also doubled, leading and trailing) and single-digit bytes before a separator"""
+    if not fancy:
+        return data.hex()
+    t = rng.choice(["", ":", " "])
+    for i, b in enumerate(data):
+        sep = rng.choice(["", "", ":", " ", ".", "::", ". "])
+        if i == len(data) - 1 and rng.random() < 0.5:
+            sep = rng.choice([":", " ", "."])
+        h = "%02x" % b
+        if b < 16 and sep and rng.random() < 0.7:
+            h = "%x" % b                       # a lone digit is a whole byte when a separator follows
+        h = "".join(ch.upper() if rng.random() < 0.5 else ch for ch in h)
+        t += h + sep
+    return t
+
+
+def run_tool(root, tooldir, tool, args, infile_bytes, rng, idx, preexist=None):
     """Run one example binary; returns (rc, outexists, outbytes)."""
     d = os.path.join(tooldir, "case%d" % idx)
     os.makedirs(d)
     inp = os.path.join(d, "in.bin")
     outp = os.path.join(d, "out.bin")
+    if preexist is not None:
+        with open(outp, "wb") as f:
+            f.write(preexist)
     if infile_bytes is not None:
         with open(inp, "wb") as f:
             f.write(infile_bytes)
@@ -2536,18 +2585,27 @@ def check_C20(work, tier, seed):
     idx = 0
     for c in good:
         idx += 1
-        groups = [["-b", str(c["bs"] * 8)], ["-k", c["key"].hex()]]
+        fancy = idx % 3 == 0
+        ktext = hex_text(rng, c["key"], fancy)
+        twtext = hex_text(rng, c["tw"], fancy) if c["tw"] is not None else ""
+        groups = [["-b", str(c["bs"] * 8)], ["-k", ktext]]
         if c["tw"] is not None:
-            groups.append(["-c" if c["tool"] == "ctr" else "-t", c["tw"].hex()])
+            groups.append(["-c" if c["tool"] == "ctr" else "-t", twtext])
         if c["dec"]:
             groups.append(["-d"])
         rng.shuffle(groups)                      # options in any order
         if c["bs"] == 8 and rng.random() < 0.3:
             groups.insert(0, ["-b", "128"])       # an earlier -b is overridden by the later one
         args = [a for g in groups for a in g] + ["@IN", "@OUT"]
-        rc, ex, data = run_tool(b.root, tooldir, c["tool"], args, c["data"], rng, idx)
+        # a file of the output's name may exist already: longer, shorter, of equal length, empty
+        whole_ = len(c["data"]) - (0 if c["tool"] == "ctr" else len(c["data"]) % c["bs"])
+        pre = [None, bytes(rng.randrange(256) for _ in range(whole_ + rng.choice((1, 7, 1500)))),
+               bytes(max(whole_ - 1, 0)), b"\x5a" * whole_, b""][idx % 5]
+        rc, ex, data = run_tool(b.root, tooldir, c["tool"], args, c["data"], rng, idx, preexist=pre)
         events.append(json.dumps({"e": "tool", "tool": c["tool"], "bs": c["bs"], "key": list(c["key"]),
                                   "tw": list(c["tw"] or b""), "twgiven": 1 if c["tw"] is not None else 0,
+                                  "ktext": [ord(ch) for ch in ktext], "twtext": [ord(ch) for ch in twtext],
+                                  "pre": -1 if pre is None else len(pre),
                                   "dec": c["dec"], "in": list(c["data"]), "rc": rc, "outexists": ex,
                                   "out": list(data)}))
         out.distinct.add((c["tool"], c["bs"], len(c["key"]), len(c["tw"] or b""), c["dec"], len(c["data"])))
@@ -2567,6 +2625,7 @@ def check_C20(work, tier, seed):
             rc2, ex2, data2 = run_tool(b.root, tooldir, c["tool"], args2, data, rng, idx)
             events.append(json.dumps({"e": "tool", "tool": c["tool"], "bs": c["bs"], "key": list(c["key"]),
                                       "tw": list(c["tw"] or b""), "twgiven": 1 if c["tw"] is not None else 0,
+                                      "ktext": [ord(ch) for ch in ktext], "twtext": [ord(ch) for ch in twtext], "pre": -1,
                                       "dec": d2, "in": list(data), "rc": rc2, "outexists": ex2, "out": list(data2)}))
             whole = len(c["data"]) - (0 if c["tool"] == "ctr" else len(c["data"]) % c["bs"])
             if data2 != c["data"][:whole]:
@@ -2614,8 +2673,11 @@ def check_C20(work, tier, seed):
              "SkinnySpec (CTR stream law, ECB map, per-block tweak increment); every third case is run again on its "
              "output (round trip); options are given in shuffled order (and -b twice); 14+ classes of invalid options "
              "per tool, the order-sensitive ones in several orders, must exit non-zero without creating the output "
-             "file. distinct = distinct (tool,bs,key length,counter length,dec,file length) and invalid classes.",
-        assumptions=["short reads from fread() are not provoked", "hex options are plain hex digits"])
+             "file. Every third case writes its key/counter/tweak in the tools' full hex syntax (mixed case, blank/colon/"
+             "dot separators, single-digit bytes), whose meaning ToolsTrace defines (ParseHex) and checks; four of "
+             "five cases find a file of the output's name already there (longer, shorter, same length, empty). "
+             "distinct = distinct (tool,bs,key length,counter length,dec,file length) and invalid classes.",
+        assumptions=["short reads from fread() are not provoked"])
 
 
 CHECKS.update({"C20": check_C20})
